@@ -60,11 +60,13 @@ package mathx
 //@   ensures [def] result == exp(lgamma(a) + lgamma(b) - lgamma(a + b))
 //@   assigns nothing
 
-//@ assume func betacf
+//@ func betacf
 //@   deterministic
 //@   model xreal
-//@   trusted modified Lentz continued fraction (Numerical Recipes 6.4): returns a finite value or panics after 200 iterations; convergence and accuracy not verified
-//@   ensures isfinite(result)
+//@   maypanic the modified Lentz continued fraction (Numerical Recipes 6.4) may fail to converge within 200 steps (convergence and accuracy are not decided)
+//@   requires isfinite(a) && isfinite(b) && isfinite(x) && a > 0 && b > 0 && 0 <= x && x < 1
+//@   ensures [finite] isfinite(result)
+//@   loop 1 (m) invariant m >= 1 && isfinite(c) && c != 0 && isfinite(d) && isfinite(h)
 //@   assigns nothing
 
 //@ func BetaInc
@@ -78,18 +80,23 @@ package mathx
 //@   ensures [reflected]   0 < x && x < 1 && !(x < (a + 1) / (a + b + 2)) ==> result == 1 - exp(lgamma(a + b) - lgamma(a) - lgamma(b) + a * log(x) + b * log(1 - x)) * betacf(1 - x, b, a) / b
 //@   assigns nothing
 
-//@ assume func gammaIncSeries
+//@ func gammaIncSeries
 //@   deterministic
 //@   model xreal
-//@   trusted series of Numerical Recipes 6.2: convergence and accuracy not verified
-//@   ensures true
+//@   maypanic the series may fail to converge within 200 terms (convergence and accuracy are not decided)
+//@   witness ws = sum @ret2
+//@   ensures [zero]   x == 0 ==> result == 0
+//@   ensures [factor] isfinite(a) && isfinite(x) && a > 0 && x > 0 ==> result == ws * exp(-x + a * log(x) - lgamma(a)) && isfinite(ws) && ws * a >= 1
+//@   loop 1 (n) invariant isfinite(a) && isfinite(x) && a > 0 && x > 0 ==> isfinite(ap) && ap >= a && isfinite(del) && del > 0 && isfinite(sum) && sum * a >= 1
 //@   assigns nothing
 
-//@ assume func gammaIncCF
+//@ func gammaIncCF
 //@   deterministic
 //@   model xreal
-//@   trusted continued fraction of Numerical Recipes 6.2: convergence and accuracy not verified
-//@   ensures true
+//@   maypanic the continued fraction may fail to converge within 200 steps (convergence and accuracy are not decided)
+//@   witness wh = h @ret1
+//@   ensures [factor] isfinite(a) && isfinite(x) && a > 0 && x >= a + 1 ==> result == exp(-x + a * log(x) - lgamma(a)) * wh && isfinite(wh)
+//@   loop 1 (i) invariant i >= 1 && (isfinite(a) && isfinite(x) && a > 0 && x >= a + 1 ==> isfinite(b) && isfinite(c) && c != 0 && isfinite(d) && isfinite(h))
 //@   assigns nothing
 
 //@ func GammaInc
